@@ -13,6 +13,7 @@ def proof_side(ctx, prop):
     except C.BuildError as e:
         res["ok"] = False
         res["failures"].append({"kind": "extractor", "detail": str(e)[-3000:]})
+    C.sh([sys.executable, os.path.join(C.VERIF, "tools", "gen_registry.py")])
     ok, log = C.lake_build(list(prop.LEAN_MODULES) + ["drv"])
     if not ok:
         res["ok"] = False
